@@ -5,6 +5,7 @@ package main
 // requirement to the callers of the enclosing function, up to the API entries.
 
 import (
+	"os"
 	"fmt"
 	"sort"
 	"strings"
@@ -61,7 +62,7 @@ func hasLocalTerm(t *Term) bool {
 	return false
 }
 
-func (d *Demand) modeFor(killed map[string]int) func(a *Atom) int {
+func (d *Demand) modeFor(killed map[string]int, facts *Facts) func(a *Atom) int {
 	return func(a *Atom) int {
 		if hasLocalTerm(a.A) || hasLocalTerm(a.B) {
 			return ModeNone
@@ -85,7 +86,12 @@ func (d *Demand) modeFor(killed map[string]int) func(a *Atom) int {
 			}
 			switch idxClass(a.A.Args[1], nil) {
 			case "own":
-				rem &^= KillNNSender
+				// a store into a sender's slot leaves the own slot alone only if the sender is not this node. It can be:
+				// a node that lost its state is handed its own payloads back by a recovery message. The path must know
+				// better — every sender index it equates with something is known to differ from MyIndex
+				if senderIsNotOwn(facts) {
+					rem &^= KillNNSender
+				}
 			case "sender":
 				rem &^= KillNNOwn
 			}
@@ -175,8 +181,11 @@ func (d *Demand) proveSnap(site *Site, sn *Snap, g *Formula, depth int) *Failure
 			}
 		}
 	}
-	r, cex := residual(g, facts, d.modeFor(sn.Killed))
+	r, cex := residual(g, facts, d.modeFor(sn.Killed, facts))
 	lab := d.siteLabel(site)
+	if os.Getenv("DBFTLINT_DEBUG_DEMAND") != "" && strings.Contains(lab, os.Getenv("DBFTLINT_DEBUG_DEMAND")) {
+		fmt.Printf("DEMAND %s depth=%d\n   g=%s\n   r=%s\n   killed=%v notOwn=%v\n", lab, depth, g.String(), r.String(), sn.Killed, senderIsNotOwn(facts))
+	}
 	if r.K == FFalse {
 		return &Failure{Chain: []string{lab}, Cex: cexString(cex), Reason: "cannot establish " + g.String() + " on path {" + sn.Trail + "}"}
 	}
@@ -318,4 +327,45 @@ func substTerm(t *Term, sub map[string]*Term) *Term {
 		return pt
 	}
 	return nt
+}
+
+
+// senderIsNotOwn: the facts tie the index of the received payload(s) to a term that is known to differ from MyIndex
+// (e.g. sender == PrimaryIndex and MyIndex != PrimaryIndex), or say directly that it differs.
+func senderIsNotOwn(f *Facts) bool {
+	if f == nil {
+		return false
+	}
+	found := false
+	for k, v := range f.m {
+		a := f.atoms[k]
+		if a == nil || a.Op != "eq" || a.A == nil || a.B == nil {
+			continue
+		}
+		var other *Term
+		switch {
+		case idxClass(a.A, nil) == "sender":
+			other = a.B
+		case idxClass(a.B, nil) == "sender":
+			other = a.A
+		default:
+			continue
+		}
+		if other.S == tMyIndex.S {
+			if !v {
+				found = true
+				continue
+			}
+			return false // the sender IS this node
+		}
+		if !v {
+			continue
+		}
+		if ne, ok := f.value(mkAtom("eq", tMyIndex, other)); ok && !ne {
+			found = true
+		} else {
+			return false
+		}
+	}
+	return found
 }
